@@ -368,12 +368,21 @@ findTypeLoop:
 
 	// If needed, reorder the chunks or introduce extension records.
 	isTooLarge := false
-	var total uint32
+	var total, tablePos uint32
 	for i := range chunks {
 		code := chunks[i].code
-		if code&chunkTypeMask == chunkTable && total > 0xFFFF {
-			isTooLarge = true
-			break
+		switch code & chunkTypeMask {
+		case chunkTable:
+			// lookup offsets are relative to the lookup list
+			if total > 0xFFFF {
+				isTooLarge = true
+			}
+			tablePos = total
+		case chunkSubtable:
+			// subtable offsets are relative to the lookup table
+			if total-tablePos > 0xFFFF {
+				isTooLarge = true
+			}
 		}
 		total += chunks[i].size
 	}
@@ -465,6 +474,7 @@ func (ll LookupList) tryReorder(chunks []layoutChunk) []layoutChunk {
 	}
 
 	lookupSize := make(map[chunkCode]uint32)
+	lastSubtableSize := make(map[chunkCode]uint32)
 	var lookups []chunkCode
 	for i := range chunks {
 		code := chunks[i].code
@@ -474,9 +484,38 @@ func (ll LookupList) tryReorder(chunks []layoutChunk) []layoutChunk {
 			continue
 		} else if tp == chunkTable {
 			lookups = append(lookups, tCode)
+		} else {
+			lastSubtableSize[tCode] = chunks[i].size
 		}
 		lookupSize[tCode] += chunks[i].size
 	}
+
+	// extSize returns the size of a lookup table where all subtables
+	// have been replaced by extension records.
+	extSize := func(tCode chunkCode) uint32 {
+		l := ll[tCode>>14]
+		lookupHeaderLen := 6 + 2*len(l.Subtables)
+		if l.Meta.LookupFlags&UseMarkFilteringSet != 0 {
+			lookupHeaderLen += 2
+		}
+		return uint32(lookupHeaderLen) + 8*uint32(len(l.Subtables))
+	}
+
+	// A lookup where the offset of the last subtable does not fit into 16
+	// bits must use extension subtables in any case.
+	replace := make(map[chunkCode]bool)
+	extra := 0
+	for _, tCode := range lookups {
+		oldSize := lookupSize[tCode]
+		if oldSize-lastSubtableSize[tCode] > 0xFFFF {
+			newSize := extSize(tCode)
+			replace[tCode] = true
+			extra += len(ll[tCode>>14].Subtables)
+			total -= oldSize - newSize
+			lookupSize[tCode] = newSize
+		}
+	}
+
 	sort.SliceStable(lookups, func(i, j int) bool {
 		return lookupSize[lookups[i]] < lookupSize[lookups[j]]
 	})
@@ -486,18 +525,12 @@ func (ll LookupList) tryReorder(chunks []layoutChunk) []layoutChunk {
 	biggestLookup := lookups[len(lookups)-1]
 	lastPos := total - lookupSize[biggestLookup]
 	idx := len(lookups) - 2
-	replace := make(map[chunkCode]bool)
-	extra := 0
 	for lastPos > 0xFFFF && idx >= 0 {
 		tCode := lookups[idx]
 
 		oldSize := lookupSize[tCode]
 		l := ll[tCode>>14]
-		lookupHeaderLen := 6 + 2*len(l.Subtables)
-		if l.Meta.LookupFlags&UseMarkFilteringSet != 0 {
-			lookupHeaderLen += 2
-		}
-		newSize := uint32(lookupHeaderLen) + 8*uint32(len(l.Subtables))
+		newSize := extSize(tCode)
 
 		if newSize < oldSize {
 			replace[tCode] = true
@@ -520,19 +553,22 @@ func (ll LookupList) tryReorder(chunks []layoutChunk) []layoutChunk {
 		switch {
 		case tp == chunkHeader:
 			res = append(res, chunk)
-		case tCode == biggestLookup:
-			moved = append(moved, chunk)
 		case replace[tCode]:
 			sCode := code & chunkSubtableMask
 			if tp == chunkSubtable {
-				res = append(res, layoutChunk{
+				ext = append(ext, chunk)
+				chunk = layoutChunk{
 					code: chunkExtReplace | tCode | sCode,
 					size: 8,
-				})
-				ext = append(ext, chunk)
+				}
+			}
+			if tCode == biggestLookup {
+				moved = append(moved, chunk)
 			} else {
 				res = append(res, chunk)
 			}
+		case tCode == biggestLookup:
+			moved = append(moved, chunk)
 		default:
 			res = append(res, chunk)
 		}
